@@ -334,3 +334,13 @@ Definition feasible (g : graph) (pi : list Z) : bool :=
              forallb (fun vw : Z * Z => pot pi (fst vw) <=? pot pi (fst r) + snd vw) (succs g (fst r))) g.
 Definition potential_ok (g : graph) (pi : list Z) (s t : Z) (p : list Z) : bool :=
   feasible g pi && (pot pi t - pot pi s =? weight g p).
+
+(* certificate for a request WITH an include list on a large mesh: one feasible potential per leg
+   s -> inc_1 -> ... -> inc_k -> t; the sum of the leg distances bounds every walk crossing inc in order from below *)
+Fixpoint seg_bound (pis : list (list Z)) (u : Z) (rest : list Z) : Z :=
+  match pis, rest with
+  | pi :: pis', v :: rest' => (pot pi v - pot pi u) + seg_bound pis' v rest'
+  | _, _ => 0
+  end.
+Definition seg_cert_ok (g : graph) (pis : list (list Z)) (s t : Z) (inc p : list Z) : bool :=
+  forallb (feasible g) pis && (length pis =? S (length inc))%nat && (seg_bound pis s (inc ++ [t]) =? weight g p).
